@@ -209,7 +209,49 @@ fn one(rep: &mut Rep, id: &str, phase: Phase, what: &str, bytes: &[u8], split: O
     judge(rep, id, phase, what, bytes, &su, &o)
 }
 
+fn run_miri(rep: &mut Rep) {
+    rep.note("miri: per shard 30 stacked PRNG mutations of valid packets + 10 truncations, in PRNG-chosen phases");
+    let corp = corpus();
+    let mut rng = Rng::new(rep.seed.wrapping_mul(7727).wrapping_add(rep.shard * 977));
+    for k in 0..40 {
+        let id = format!("miri:{}:{k}", rep.shard);
+        let phase = PHASES[rng.below(3)];
+        let mut m = corp[rng.below(corp.len())].1.clone();
+        if k < 30 {
+            for _ in 0..1 + rng.below(3) {
+                if m.is_empty() {
+                    break;
+                }
+                match rng.below(3) {
+                    0 => {
+                        let p = rng.below(m.len());
+                        m[p] = rng.next() as u8;
+                    }
+                    1 => {
+                        let p = rng.below(m.len() + 1);
+                        m.insert(p, *rng.pick(&[0u8, 0x7f, 0x80, 0xff, 0x0b, 0x26]));
+                    }
+                    _ => {
+                        let p = rng.below(m.len());
+                        m.remove(p);
+                    }
+                }
+            }
+            rep.add("random_mutations", 1);
+        } else {
+            let cut = rng.below(m.len());
+            m.truncate(cut);
+            rep.add("truncations", 1);
+        }
+        one(rep, &id, phase, "miri sample", &m, None, if k % 2 == 0 { Fault::Eof } else { Fault::ReadErr });
+        rep.distinct(&(&m, phase));
+    }
+}
+
 pub fn run(rep: &mut Rep) {
+    if rep.profile == "miri" {
+        return run_miri(rep);
+    }
     let mut idx = 0u64;
     // (a) all byte strings up to a bound over a boundary alphabet
     let alpha: [u8; 16] = [0x00, 0x01, 0x02, 0x04, 0x10, 0x20, 0x30, 0x32, 0x40, 0x62, 0x7f, 0x80, 0xd0, 0xe0, 0xf0, 0xff];
